@@ -44,6 +44,10 @@ KF_C07_method(ev) == ev.kinds = <<"method-add">> /\ ev.exit = 0 /\ ev.hexit = 0
 (* units make get_die_from_offset abort.  Only events whose second build uses gcc with -fdebug-types-section qualify.        *)
 KF_C43_type_units(ev) == ev.typeUnits /\ ev.comp = "gcc"
 
+(* C39: the two remaining INI round-trip deviations (writer does not re-escape; adjacent tuple items merge).  The structural *)
+(* condition is evaluated in IniTrace.tla against the transcription of the current code; this flag says they are listed.         *)
+KF_C39_listed == TRUE
+
 (* C04: FALSE unless listed *)
 KF_C04_unescaped(ev) == FALSE
 ====================================================================================================
